@@ -51,3 +51,26 @@ Proof.
   - exact HG.
   - exact Hev.
 Qed.
+
+(* ---- the buffer-filling receiver over the buffered read_until framer (C03's bru_consumer_ok_rel) *)
+From EN Require Import Frame.BufReadUntil Proofs.BufReadUntil_proofs Proofs.C03_bufreaduntil Proofs.C10_reexport.
+
+Lemma recv_packet_no_loss_buffered_read_until_proof :
+  forall (P : Type) (sep : bytes) (limit : nat) (keep_end : bool) (dec : decoder P) (sizehint : nat),
+    sep <> [] -> length sep + 1 <= limit ->
+    forall (latching : bool) ls,
+      let F := bru_framer sep limit keep_end dec in
+      let es := erun (buf_smachine F sizehint) true latching (einit (bcinit F)) ls in
+      safe sep (limit - 1 - length sep) (delivered (sk es)) ->
+      exists rest, fst (spec_events sep keep_end dec (delivered (sk es))) = events es ++ rest.
+Proof.
+  intros P sep limit keep_end dec sizehint Hsep Hlim latching ls F es HG.
+  pose proof (bru_consumer_ok_rel sep limit keep_end dec sizehint Hsep Hlim) as OK0.
+  destruct (recv_packet_no_loss_buffered_proof P F sizehint _ _ _ _ OK0) with (latching := latching)
+    (c0 := bcinit F) (ls := ls) as (Hev & _).
+  - (* drained states of C03's representation have nothing pending and no exported view *)
+    intros c d (d1 & w & _ & _ & Hrep). inversion Hrep; subst; simpl; split; reflexivity.
+  - apply bru_R_init. exact Hsep.
+  - exact HG.
+  - exact Hev.
+Qed.
